@@ -6,7 +6,7 @@
 From Coq Require Import List NArith ZArith String.
 From Coq Require Import Strings.Byte.
 From GoBT Require Import lib.Bytes lib.Hex lib.Checked gen.OpNames gen.OpTable model.Push model.Parser model.Asm
-  spec.PushSpec proofs.PushProofs proofs.ParserProofs proofs.TokenProofs proofs.AsmProofs.
+  spec.PushSpec spec.TemplateSpec proofs.PushProofs proofs.ParserProofs proofs.TokenProofs proofs.AsmProofs proofs.AuditD13.
 Import ListNotations.
 Local Open Scope N_scope.
 
@@ -161,3 +161,45 @@ Proof.
   - exists "OP_TRUE"%string. split; vm_compute; reflexivity.
   - exists EmptyString. split; vm_compute; reflexivity.
 Qed.
+
+(** ** which byte strings are accepted (audit D) *)
+
+(** DecodeParts returns without error on exactly the byte strings that are sequences of complete
+    tokens of the push grammar ([tokens], spec/TemplateSpec.v: one-byte opcodes and headers followed
+    by as many bytes as they announce) - so "rejected" means "not well-formed" and nothing else *)
+Theorem C13_decode_accepts_iff_wellformed : forall s, dres_ok (decode_parts s) = true <-> tokens s.
+Proof. exact decode_ok_iff_tokens. Qed.
+Print Assumptions C13_decode_accepts_iff_wellformed.
+
+(** every byte string is well-formed, or a well-formed prefix followed by a push cut short: the two
+    outcomes of the decoders are the only two cases of the grammar *)
+Theorem C13_wellformed_or_truncated : forall s,
+  tokens s \/ exists pre t, s = pre ++ t /\ tokens pre /\ truncated_push t.
+Proof. exact tokens_or_truncated. Qed.
+Print Assumptions C13_wellformed_or_truncated.
+
+(** Parse (without ErrorOnCheckSig) accepts every well-formed script, at any conditional depth; hence
+    Unparse (Parse s) = s for EVERY well-formed s (the hypothesis of [C13_unparse_parse] is met) *)
+Theorem C13_parse_accepts_wellformed : forall s, tokens s -> forall cb, exists ops, parse_from false cb s = Ok ops.
+Proof. exact parse_accepts_tokens. Qed.
+Print Assumptions C13_parse_accepts_wellformed.
+Theorem C13_parse_unparse_wellformed : forall s, tokens s ->
+  exists ops, parse false s = Ok ops /\ unparse ops = Ok s.
+Proof. exact parse_unparse_wellformed. Qed.
+Print Assumptions C13_parse_unparse_wellformed.
+
+(** DecodeParts rejects a truncated push after ANY well-formed prefix, one with OP_RETURN included
+    (DecodeParts does not stop at OP_RETURN) *)
+Theorem C13_truncated_push_rejected_decode : forall pre t, tokens pre -> truncated_push t ->
+  dres_ok (decode_parts (pre ++ t)) = false.
+Proof. exact truncated_push_rejected_decode. Qed.
+Print Assumptions C13_truncated_push_rejected_decode.
+
+(** the third decoder: the text ToASM returns for a script DecodeParts rejects ends in "[error]" *)
+Theorem C13_to_asm_marks_undecodable : forall s, dres_ok (decode_parts s) = false ->
+  exists pre, to_asm s = Ok (pre ++ "[error]")%string.
+Proof. exact to_asm_marks_undecodable. Qed.
+Print Assumptions C13_to_asm_marks_undecodable.
+
+Example C13_to_asm_marks_example : to_asm [x76; x4c] = Ok "OP_DUP [error]"%string /\ tokens p2pkh_ex2.
+Proof. split; [vm_compute; reflexivity|]. apply decode_ok_iff_tokens. vm_compute. reflexivity. Qed.
